@@ -38,6 +38,9 @@ def build(chk):
     c_template(chk)
     c_template_efficiency(chk)
     c_template_integrate(chk)
+    # callee contracts this property relies on, re-discharged here (a change inside them must fail THIS property too)
+    from .C06_admissible import c_deton
+    c_deton(chk)
 
 
 def c_helpers(chk):
